@@ -83,7 +83,11 @@ Record rstate := mkR {
 }.
 Definition r0 : rstate := mkR RStart 0 0 false false 0 false 0 0 0.
 
-Record qspec := mkQS { qs_client : N; qs_key : N }.
+(* qs_ans_cached / qs_extra_cached: with the rocksdb driver the data the FindAnswer / the
+   SOA-NS-additional phase needs was already fetched by the previous lookup of this request and
+   is served from the per-request context cache (rdb.Context: IsAuthoritative reads the key of
+   the query name and of the zone apex), so the phase sees the generation that lookup saw *)
+Record qspec := mkQS { qs_client : N; qs_key : N; qs_ans_cached : bool; qs_extra_cached : bool }.
 Record espec := mkES { es_path : N; es_file : file }.
 
 Record config := mkC {
@@ -185,6 +189,8 @@ Definition tick (st : state) : state :=
 
 Definition qset_pc (q : qstate) (pc : qpc) : qstate :=
   mkQ pc (q_pin q) (q_reads q) (q_hit q) (q_resp q) (q_cached q) (q_acq_at q) (q_done_at q).
+(* the generation the previous lookup of this query saw (d: none yet) *)
+Definition prev_read (q : qstate) (d : gen) : gen := last (q_reads q) d.
 Definition qread (q : qstate) (pc : qpc) (g : gen) : qstate :=
   mkQ pc (q_pin q) (q_reads q ++ [g]) (q_hit q) (q_resp q) (q_cached q) (q_acq_at q) (q_done_at q).
 Definition rset_pc (r : rstate) (pc : rpc) : rstate :=
@@ -248,9 +254,13 @@ Definition q_step (cfg : config) (st : state) (j : nat) : option state :=
              Some (set_q st j (mkQ QDone (q_pin q) (q_reads q) (q_hit q) (Some (q_reads q)) false
                                    (q_acq_at q) (st_clock st)))
         else (* reader.FindAnswer; yield answered *)
-             Some (set_q st j (qread q QAnswered (content st (q_pin q))))
+             Some (set_q st j (qread q QAnswered
+                                     (if c_rocks cfg && qs_ans_cached qs
+                                      then prev_read q (content st (q_pin q)) else content st (q_pin q))))
     | QAnswered =>   (* FindSOA / GetNs / AdditionalSectionForRecords; yield before_cache_insert *)
-        Some (set_q st j (qread q QBeforeInsert (content st (q_pin q))))
+        Some (set_q st j (qread q QBeforeInsert
+                                (if c_rocks cfg && qs_extra_cached qs
+                                 then prev_read q (content st (q_pin q)) else content st (q_pin q))))
     | QBeforeInsert =>   (* h.lru.Add unless weighted (and WRSTimeout = 0); yield before_write *)
         let st' :=
           if c_cache cfg && (negb (is_weighted k (q_reads q)) || c_wrs cfg)
